@@ -87,6 +87,17 @@ func newWorld(v variant, backend string) *world {
 
 func (w *world) close() { w.b.close() }
 
+// clone copies a memorydb world (store content and machine). It is only an accelerator for
+// the shards that do not own a transition and merely need its successor state; every state
+// found this way is re-derived by replay before it is expanded.
+func (w *world) clone() *world {
+	b := &backing{kind: "memorydb", db: w.b.reopen()}
+	db := &faultDB{Database: b.db, limit: -1}
+	pr := keyvalue.NewPersistRestorer(db)
+	sm := w.sm.Clone()
+	return &world{v: w.v, b: b, db: db, pr: pr, sm: sm, m: persistence.FromStateMachine(sm, pr), params: w.params, peers: w.peers, parent: w.parent, life: w.life}
+}
+
 func (w *world) initAlloc() channel.Allocation {
 	row := make([]int64, w.v.N)
 	for i := range row {
@@ -486,8 +497,12 @@ func c10Search(t *testing.T, res *report.Result, v variant, deadline time.Time) 
 	shard, nshards := report.Shard()
 	w0, _ := build(v, "memorydb", all, nil, false, nil)
 	seen := map[string]bool{w0.canon(): true}
+	type node struct {
+		h   []int
+		key string
+	}
+	frontier := []node{{nil, w0.canon()}}
 	w0.close()
-	frontier := [][]int{nil}
 	nStates, nTrans, maxDepth := 0, 0, 0
 	violate := func(f c10Finding, backend string, h []int, o *op, k int) {
 		if f.inherited {
@@ -505,29 +520,36 @@ func c10Search(t *testing.T, res *report.Result, v variant, deadline time.Time) 
 			res.Cap("C10 %s: deadline reached with %d states in the frontier", v.Name, len(frontier))
 			return false
 		}
-		h := frontier[0]
-		frontier = frontier[1:]
+		h := frontier[0].h
 		if nStates%nshards == shard {
 			res.Count("states", 1)
 		}
 		nStates++
-		w, org := build(v, "memorydb", all, h, true, nil) // one replay per discovered state
-		dirty := false
+		base, org := build(v, "memorydb", all, h, true, nil) // one replay per discovered state; never modified
+		if base.canon() != frontier[0].key {
+			t.Fatalf("engine error: the state reached by replaying %v is not the state it was discovered as", names(all, h))
+		}
+		frontier = frontier[1:]
+		var w *world // a replayed world in state s for the transitions this shard owns
 		for oi := range all {
 			o := &all[oi]
-			if dirty {
-				w.close()
-				w, _ = build(v, "memorydb", all, h, false, nil)
-				dirty = false
-			}
-			if !o.offered(w) {
+			if !o.offered(base) {
 				continue
 			}
 			mine := nTrans%nshards == shard
 			nTrans++
-			raw0 := rawDigest(w.b.db)
-			r := w.step(o, -1) // no fault: counts W and is the crash point k = W
-			changed := r.W > 0 || r.before != r.after || rawDigest(w.b.db) != raw0
+			var cur *world
+			if mine {
+				if w == nil {
+					w, _ = build(v, "memorydb", all, h, false, nil)
+				}
+				cur = w
+			} else {
+				cur = base.clone()
+			}
+			raw0 := rawDigest(cur.b.db)
+			r := cur.step(o, -1) // no fault: counts W and is the crash point k = W
+			changed := r.W > 0 || r.before != r.after || rawDigest(cur.b.db) != raw0
 			if mine {
 				res.Count("transitions", 1)
 				if r.err != nil {
@@ -547,7 +569,7 @@ func c10Search(t *testing.T, res *report.Result, v variant, deadline time.Time) 
 				if r.W > 0 {
 					res.Count("distinct_nontrivial", 1)
 				}
-				for _, f := range verdicts(o, r.W, r, w.observe(), org) {
+				for _, f := range verdicts(o, r.W, r, cur.observe(), org) {
 					violate(f, "memorydb", h, o, r.W)
 				}
 				for k := 0; k < r.W; k++ { // the crash points inside the operation
@@ -586,12 +608,14 @@ func c10Search(t *testing.T, res *report.Result, v variant, deadline time.Time) 
 						w3.close()
 					}
 				}
+				if changed {
+					w = nil // used up; the next owned transition replays again
+				}
 			}
 			if !changed {
 				continue // refused without a trace: the world is still in state s
 			}
-			dirty = true
-			key := w.canon()
+			key := cur.canon()
 			if !seen[key] {
 				seen[key] = true
 				nh := append(append([]int{}, h...), oi)
@@ -599,12 +623,12 @@ func c10Search(t *testing.T, res *report.Result, v variant, deadline time.Time) 
 					maxDepth = len(nh)
 				}
 				if len(nh) <= 5 && mine {
-					res.Sample(6, map[string]interface{}{"check": "C10", "variant": v.Name, "history": names(all, nh), "phase": w.sm.Phase().String(), "write_boundaries_of_last_op": r.W})
+					res.Sample(6, map[string]interface{}{"check": "C10", "variant": v.Name, "history": names(all, nh), "phase": cur.sm.Phase().String(), "write_boundaries_of_last_op": r.W})
 				}
-				frontier = append(frontier, nh)
+				frontier = append(frontier, node{nh, key})
 			}
 		}
-		w.close()
+		base.close()
 	}
 	if int64(maxDepth) > res.Counters["max_depth"] {
 		res.Counters["max_depth"] = int64(maxDepth)
